@@ -50,3 +50,49 @@ func TestC19DebugN(t *testing.T) {
 		t.Logf("%+v: %v", sc, ns)
 	}
 }
+
+// TestC19Search enumerates every placement of exactly $C19_K deviations from
+// the multi-deviation kinds over one scenario ($C19_SEARCH, JSON) and prints
+// the failing cases (development aid).
+func TestC19Search(t *testing.T) {
+	s := os.Getenv("C19_SEARCH")
+	if s == "" {
+		t.Skip("C19_SEARCH not set")
+	}
+	var sc c19Scn
+	if err := json.Unmarshal([]byte(s), &sc); err != nil {
+		t.Fatal(err)
+	}
+	k := 2
+	if os.Getenv("C19_K") == "1" {
+		k = 1
+	}
+	kinds := []string{"drop", "dup3", "hold1", "late", "part"}
+	if k == 1 {
+		kinds = c19Kinds
+	}
+	n := c19Exec(t, c19Case{Scn: sc}).ndgrams + 3
+	t.Logf("N=%d", n-3)
+	runs, bad := 0, 0
+	var rec func(devs []c19Dev, from int)
+	rec = func(devs []c19Dev, from int) {
+		if len(devs) == k {
+			cs := c19Case{Scn: sc, Devs: append([]c19Dev(nil), devs...)}
+			r := c19Exec(t, cs)
+			runs++
+			if len(r.fails) > 0 {
+				bad++
+				b, _ := json.Marshal(cs)
+				t.Logf("FAIL %s %s: %s", r.fails[0].sig, b, r.fails[0].what)
+			}
+			return
+		}
+		for at := from; at < n; at++ {
+			for _, kind := range kinds {
+				rec(append(devs, c19Dev{At: at, Kind: kind}), at+1)
+			}
+		}
+	}
+	rec(nil, 0)
+	t.Logf("runs=%d failing=%d", runs, bad)
+}
